@@ -55,8 +55,13 @@ func scopeClasses(c *x509.Certificate) map[string]string {
 		return false
 	}
 	anyEKU := has(x509.ExtKeyUsageAny)
-	cabf, csPol, csExact := false, false, false
+	cabf, csPol, csExact, smimePol := false, false, false, false
 	for _, p := range c.PolicyIdentifiers {
+		// the twelve policy identifiers the S/MIME Baseline Requirements reserve (2.23.140.1.5.<type>.<generation>):
+		// a certificate asserting one claims to be issued under that document
+		if len(p) == 7 && oidHasPrefix(p, 2, 23, 140, 1, 5) && p[5] >= 1 && p[5] <= 4 && p[6] >= 1 && p[6] <= 3 {
+			smimePol = true
+		}
 		if oidHasPrefix(p, 2, 23, 140, 1) {
 			cabf = true
 		}
@@ -81,7 +86,7 @@ func scopeClasses(c *x509.Certificate) map[string]string {
 		out["CABF_BR"] = "out"
 	}
 	switch {
-	case has(x509.ExtKeyUsageEmailProtection) && email:
+	case has(x509.ExtKeyUsageEmailProtection) && email, smimePol:
 		out["CABF_SMIME_BR"] = "in"
 	case hasEKU && !has(x509.ExtKeyUsageEmailProtection) && !anyEKU && !cabf:
 		out["CABF_SMIME_BR"] = "out"
@@ -144,7 +149,7 @@ func corpusClassIndex() []corpusClassEntry {
 			fmt.Fprintf(&sb, "%s:%d:%d;", n, st.Size(), st.ModTime().UnixNano())
 		}
 	}
-	path := filepath.Join(verifRoot(), "work", "corpus-index4-"+shortHash(sb.String()+indexHash())+".json")
+	path := filepath.Join(verifRoot(), "work", "corpus-index5-"+shortHash(sb.String()+indexHash())+".json")
 	if b, err := os.ReadFile(path); err == nil {
 		var out []corpusClassEntry
 		if json.Unmarshal(b, &out) == nil && len(out) > 0 {
@@ -362,10 +367,12 @@ func windowPos(p *Parsed, eff, ineff time.Time) string {
 
 // ---------------------------------------------------------------- configuration as the probe should see it
 
+const probeGlobalSection = "CABFBaselineRequirementsConfig"
+
 // probeCfgState: absent | legal | inapplicable | odd, and the option values a
 // probe must receive (harness reads the TOML itself, not through the library's deserialiser).
 func probeCfgState(spec *CfgSpec, text string, name string) (string, ProbeCfg) {
-	def := ProbeCfg{Num: 7, Text: "default"}
+	def := ProbeCfg{Num: 7, Text: "default", BR: &lint.CABFBaselineRequirementsConfig{}}
 	if spec == nil {
 		return "absent", def
 	}
@@ -378,6 +385,16 @@ func probeCfgState(spec *CfgSpec, text string, name string) (string, ProbeCfg) {
 	tree, err := toml.Load(text)
 	if err != nil {
 		return "odd", def
+	}
+	// the global section the probes' option struct refers to: where it is not a table it cannot be
+	// applied to any lint that refers to it
+	if gsec := tree.Get(probeGlobalSection); gsec != nil {
+		if _, isTable := gsec.(*toml.Tree); !isTable {
+			if spec.MustFatal {
+				return "inapplicable", def
+			}
+			return "odd", def
+		}
 	}
 	sec, ok := tree.Get(name).(*toml.Tree)
 	if !ok {
